@@ -533,7 +533,15 @@ def _doc_text(r, arcs_under_tf):
             kinds += ['circle', 'ellipse', 'rrect']
         kind = r.choice(kinds)
         v = lambda lo=-5, hi=5: round(r.uniform(lo, hi), 2)
-        if kind == 'path':
+        if kind == 'path' and r.random() < 0.3:
+            # map / CAD scale: coordinates of 1e5 .. 1e6 with several sub-paths that lie a few units apart (real gaps, small only
+            # compared with the coordinates), and an open outline that ends a couple of units from where it started
+            X, Y = r.choice([2e5, 5e5, 1e6]) + round(r.uniform(-50, 50), 1), r.choice([1e5, 3e5, 1e6]) + round(r.uniform(-50, 50), 1)
+            z = lambda dx, dy: '%s,%s' % (round(X + dx, 2), round(Y + dy, 2))
+            g1, g2 = r.choice([1.5, 3, 5]), r.choice([2, 4])
+            at = {'d': 'M%s L%s M%s L%s Q%s %s M%s L%s L%s L%s' % (z(0, 0), z(40, 0), z(40 + g1, 0), z(80, 5), z(90, 20), z(100, 5 + v()),
+                                                                     z(0, 30), z(30, 30), z(30, 60), z(g2, 30 + g2))}
+        elif kind == 'path':
             at = {'d': 'M%s,%s L%s,%s Q%s,%s %s,%s C%s,%s %s,%s %s,%s' % tuple(v() for _ in range(14))}
         elif kind == 'line':
             at = {'x1': v(), 'y1': v(), 'x2': v(), 'y2': v()}
@@ -599,7 +607,8 @@ def sample(ctx, budget=1.0, hint=None, broken=None):
             base = P.Path(at['d'])
             pts = [seg.point(t) for seg in base for t in (0, 0.3, 0.7, 1)]
         want = [complex(*(m @ np.array([p.real, p.imag, 1.0]))[:2]) for p in pts]
-        size = max(1.0, max(abs(w) for w in want))
+        # tolerance: relative to the SIZE of the shape, plus rounding of the coordinates themselves (a shape at 1e6 is known to ~1e-9 * 1e6)
+        size = max(1.0, max(abs(w - want[0]) for w in want)) + 1e-3 * max(abs(w) for w in want)
         d = _dist_pts_to_path(path, want)
         if d > 1e-6 * size:
             fail('%s/%s geometry' % (api, kind), 'the path returned for an element is not the SVG geometry of that element under the product of its ancestors\' and its own transforms',
@@ -613,15 +622,15 @@ def sample(ctx, budget=1.0, hint=None, broken=None):
             minv = np.linalg.inv(m)
         except Exception:
             return True
-        own = [seg.point(t) for seg in path for t in (0, 0.5, 1)]
+        own = [seg.point(t) for seg in path for t in (0, 0.03, 0.25, 0.5, 0.75, 0.97, 1)]
         back = [complex(*(minv @ np.array([q.real, q.imag, 1.0]))[:2]) for q in own]
         if kind == 'path':
             d2 = _dist_pts_to_path(base, back, n=60)
-            ssz = max(1.0, max(abs(q) for q in pts))
+            ssz = max(1.0, max(abs(q - pts[0]) for q in pts)) + 1e-3 * max(abs(q) for q in pts)
         else:
             poly = ref_polyline(kind, at)
             d2 = _dist_pts_to_polyline(poly, back)
-            ssz = max(1.0, max(abs(q) for q in poly))
+            ssz = max(1.0, max(abs(q - poly[0]) for q in poly)) + 1e-3 * max(abs(q) for q in poly)
         if d2 > 2e-4 * ssz * max(1.0, float(np.abs(minv[:2, :2]).max())):
             fail('%s/%s excess geometry' % (api, kind), 'the path returned for an element contains points that are not on the element\'s outline',
                  {'svg': text, 'element': sid}, 'a returned point is off the outline by %r (in the element\'s own coordinates)' % d2, 'on the outline',
